@@ -451,9 +451,14 @@ type connection struct {
 	key      key // client->server
 	c2s, s2c halfconnection
 	mu       sync.Mutex
+	// epoch counts how often this object was (re)used for a connection. It is
+	// written with both the pool lock and mu held, so either one suffices to
+	// read it.
+	epoch uint64
 }
 
 func (c *connection) reset(k key, s Stream, ts time.Time) {
+	c.epoch++
 	c.key = k
 	base := halfconnection{
 		nextSeq:  invalidSequence,
@@ -648,15 +653,28 @@ func (a *Assembler) AssembleWithContext(netFlow gopacket.Flow, t *layers.TCP, ac
 	ci := ac.GetCaptureInfo()
 	timestamp := ci.Timestamp
 
-	conn, half, rev = a.connPool.getConnection(key, false, timestamp, t, ac)
-	if conn == nil {
-		if *debugLog {
-			log.Printf("%v got empty packet on otherwise empty connection", key)
+	for {
+		conn, half, rev = a.connPool.getConnection(key, false, timestamp, t, ac)
+		if conn == nil {
+			if *debugLog {
+				log.Printf("%v got empty packet on otherwise empty connection", key)
+			}
+			return
 		}
-		return
+		verifYield("Assemble.beforeConnLock")
+		conn.mu.Lock()
+		// Between the lookup and the lock the connection may have been
+		// removed and recycled, for another key or for the same 4-tuple seen
+		// from the other side: re-validate, and pick the halves again.
+		if conn.key == key {
+			half, rev = &conn.c2s, &conn.s2c
+			break
+		} else if conn.key == key.Reverse() {
+			half, rev = &conn.s2c, &conn.c2s
+			break
+		}
+		conn.mu.Unlock()
 	}
-	verifYield("Assemble.beforeConnLock")
-	conn.mu.Lock()
 	defer conn.mu.Unlock()
 	if half.lastSeen.Before(timestamp) {
 		half.lastSeen = timestamp
@@ -1325,9 +1343,12 @@ func (a *Assembler) FlushWithOptions(opt FlushOptions) (flushed, closed int) {
 		if conn.s2c.closed && conn.c2s.closed && conn.s2c.lastSeen.Before(opt.TC) && conn.c2s.lastSeen.Before(opt.TC) {
 			remove = true
 		}
+		// once the lock is released the object may be recycled for another
+		// key: remember which entry we mean
+		k, epoch := conn.key, conn.epoch
 		conn.mu.Unlock()
 		if remove {
-			a.connPool.remove(conn)
+			a.connPool.removeKey(k, conn, epoch)
 		}
 	}
 	return flushes, closes
